@@ -1045,24 +1045,46 @@ class GateCond:
             r = self._real.wait(timeout)
         finally:
             with self.mu:
+                hold = self.hold and timeout is None
+                if hold:
+                    self.parked.add(me)         # before it leaves `waiting`: never in neither set
                 self.waiting.discard(me)
                 self.wakeups += 1
         if timeout is not None:
             return r
-        if self.hold:
+        if hold:
             def park():
-                with self.mu:
-                    self.parked.add(me)
                 if not self.go.wait(GATE_GUARD):
                     self.guard_hit += 1
+            try:
+                self._give_up_lock(park)
+            finally:
                 with self.mu:
                     self.parked.discard(me)
-            self._give_up_lock(park)
         elif self._p and self._rng.random() < self._p:
             self.delays += 1
             k = self._rng.choice((1, 1, 2, 4))
             self._give_up_lock(lambda: [time.sleep(0) for _ in range(k)])
         return r
+
+    def notified(self):
+        """threads that are inside the real wait() but no longer registered as waiters: they have been notified and
+        will return as soon as they are scheduled (None if CPython's waiter list is not accessible)"""
+        try:
+            return len(self.waiting) - len(self._real._waiters)
+        except Exception:
+            return None
+
+    def await_parked(self, n):
+        """until n threads are parked; does not wait for wake-ups that were never issued"""
+        t0 = time.time()
+        while len(self.parked) < n and time.time() - t0 < GATE_GUARD:
+            with self.mu:               # a woken thread moves from `waiting` to `parked` under this lock
+                k, parked = self.notified(), len(self.parked)
+            if k is not None and parked + k < n:
+                return False
+            time.sleep(0)
+        return len(self.parked) >= n
 
     def __getattr__(self, name):
         return getattr(self._real, name)
@@ -1746,10 +1768,7 @@ class Gated:
                 if m.acked[x] >= acked + n:
                     break
         woken = min(cfg["ack_pdus"], cfg["waiters"])
-        t0 = time.time()
-        while len(gate.parked) < woken and time.time() - t0 < GATE_GUARD:
-            time.sleep(0)
-        if len(gate.parked) < woken or m.outstanding(x) != rw - cfg["freed"]:
+        if not gate.await_parked(woken) or m.outstanding(x) != rw - cfg["freed"]:
             st.inc("gated_wakeup_not_held")
             gate.hold = False
             gate.go.set()
@@ -1816,10 +1835,7 @@ class Gated:
             if len(self.watch.i_frame[x]) >= n:
                 break
         self.pump()
-        t0 = time.time()
-        while len(gate.parked) < min(n, 2) and time.time() - t0 < GATE_GUARD:
-            time.sleep(0)
-        if len(gate.parked) < min(n, 2):
+        if not gate.await_parked(min(n, 2)):
             st.inc("gated_wakeup_not_held")
         else:
             took = self.recv_main(n)
